@@ -284,6 +284,8 @@ pub fn run(opts: &Opts) -> i32 {
         "exists (X : VType) . (exists (Y : VType) . X * Y)\n", "exists (X : VType) (Y : VType) . X * Y\n", "forall (X : VType) . (forall (Y : VType) . X -> Ret Y)\n",
         "fn x => (fn y => x)\n", "pi (x : A) . (pi (y : B) . C)\n", "f ((g x))\n", "A -> (B -> C) -> D\n", "(A * B) * C * (D * E)\n", "! ((f x))\n", "((f x))/field\n",
         "exists ((x)) . B\n", "(field = field, ((x)))\n", "@[debug(\"m\", 3)] (_)\n", "@[monadic] ((_))\n", "let foo : Int\n  -> Int = bar in\nfoo\n",
+        "exists (a = b = x as T : C) . x\n", "exists (a = b = c = x as T) . x\n", "exists ((x = y) as T : C) . x\n", "exists (= K as T : C) (n = (m = y)) . K\n", "exists (a = (b = x) as T : C) . x\n",
+        "exists (snd\n= A as M)\n (y) (M as codata | .run : B | .d1 : A end) . A\n",
     ].iter().enumerate() {
         inputs.push((format!("regression:{k}"), text.to_string()));
     }
